@@ -1251,6 +1251,42 @@ fn c08_snapshot_refresh_copies_ram() {
 }
 
 // =============================================================================================
+// thorough-tier variants
+// =============================================================================================
+
+// @harness
+// @prop C04
+// @tier thorough
+// @timeout 3000
+// @fn ZXController::wait_mreq; ZXController::wait_no_mreq; ZXController::wait_internal; ZXController::do_contention; ZXMachine::contention_clocks
+// @sym as c04_memory_cycle with any cycle length 0..=23 (longer than any machine cycle the CPU issues) and three consecutive cycles at independent addresses
+// @assert three consecutive bus cycles: total elapsed == sum of (delay at the start time of each cycle if its address is contended) + its length - delays compose exactly as the statement says for whole instructions
+// @bound 3 cycles, lengths <= 23
+// @stub ZXScreen::process_clocks -> no-op
+// @replay solver-only
+#[kani::proof]
+#[kani::unwind(10)]
+#[kani::stub(crate::zx::video::screen::ZXScreen::process_clocks, noop_screen_clocks)]
+fn c04_three_memory_cycles_compose() {
+    let (mut c, latch, t) = any_controller_at(false, false);
+    let m = c.machine;
+    let f = spec_frame_len(m);
+    let mut tt = t;
+    let mut i = 0;
+    while i < 3 {
+        let addr: u16 = kani::any();
+        let clk: usize = kani::any();
+        kani::assume(clk <= 23);
+        c.wait_mreq(addr, clk);
+        tt += if spec_contended(m, &latch, addr) { spec_delay(m, tt % f) + clk } else { clk };
+        i += 1;
+    }
+    kani::assert(elapsed(&c, t) == tt - t, "c04.mem3.delays_compose");
+    kani::cover!(tt - t > 60, "long sequence with delays");
+    kani::cover!(c.passed_frames == 1, "frame wrap inside the sequence");
+}
+
+// =============================================================================================
 // C19 — sample cursor arithmetic at real sample rates (feature sound, no AY)
 // =============================================================================================
 #[cfg(all(feature = "sound", not(feature = "ay")))]
